@@ -194,6 +194,12 @@ def recorded_healthy(b):
         pres = z.path.server_presence(s)
         if pres not in b.nodes or z.path.server(s) not in b.nodes or not b.nodes[z.path.server(s)][0]:
             continue
+        # "still offering the capacity of what is recorded on it": the recorded instances fit the declared size
+        size = int(b.nodes[z.path.server(s)][0]['memory'][:-1])
+        need = sum(int(b.nodes[z.path.scheduled(a)][0]['memory'][:-1]) for a in b.list(z.path.placement(s))
+                   if z.path.scheduled(a) in b.nodes)
+        if need > size:
+            continue
         for a in b.list(z.path.placement(s)):
             node = z.path.placement(s, a)
             data, ctime = b.nodes[node]
@@ -294,6 +300,9 @@ def run(case, want=None):
             elif kind == 'resize':
                 b.world_put(z.path.server(op[1]), srv(op[2]))
                 m.reload_servers([op[1]])
+            elif kind == 'resize_quiet':
+                # the node re-registers with another capacity while no master is listening (seen by the next fail-over)
+                b.world_put(z.path.server(op[1]), srv(op[2]))
             elif kind == 'rmserver':
                 b.world_delete(z.path.server(op[1]))
                 b.world_delete(z.path.server_presence(op[1]))
@@ -337,8 +346,13 @@ def run(case, want=None):
                     m2.init_schedule()
                     b.crash_after = None
                     m = m2
-                    if 'C09' in want:
+                    if 'C09' in want or 'C10' in want:
                         check_c09(b, m, where, errs)
+                    if 'C10' in want:
+                        try:
+                            m.check_placement_integrity()
+                        except AssertionError as ex:
+                            errs.append('%s: the new master fails its own integrity check: %r' % (where, ex))
                 except Crash:
                     if 'C10' in want:
                         check_no_dup(b, where + ' (crash after write %d of init_schedule)' % crash, errs)
@@ -378,8 +392,12 @@ def rand_case(rng):
             ops.append(['down', s])
         elif c < 0.50:
             ops.append(['up', s])
+        elif c < 0.54:
+            if known_ok('resize'):
+                ops.append(['resize', s, rng.choice([4, 8, 12, 16])])
         elif c < 0.58:
-            ops.append(['resize', s, rng.choice([4, 8, 12, 16])])
+            ops.append(['resize_quiet', s, rng.choice([4, 8, 12, 16])])
+            ops.append(['restart', rng.choice([None, None, 0, 1, 2])])
         elif c < 0.62 and case_allows_rm():
             ops.append(['rmserver', s])
         elif c < 0.68 and groups:
@@ -393,7 +411,20 @@ def rand_case(rng):
 
 
 def case_allows_rm():
-    return os.environ.get('VERIF_C09_RMSERVER', '0') == '1'
+    return known_ok('rmserver')
+
+
+def known_ok(kind):
+    """Events that trigger the listed known findings (known_findings.json: a server record deleted at run time leaves
+    its entries behind; a server reloaded at run time re-places its instances with a new expiry without refreshing the
+    entries) are left out of the random histories unless asked for with VERIF_C09_KNOWN=1."""
+    if os.environ.get('VERIF_C09_KNOWN', '0') == '1':
+        return True
+    if kind == 'rmserver':
+        return False
+    if kind == 'resize':
+        return PROP not in ('C09',)
+    return True
 
 
 def main(argv):
